@@ -265,6 +265,57 @@ def check(model: Model, run: Run) -> None:
             closes += [x for st_ in iff.body for x in ast.walk(st_) if isinstance(x, ast.Call) and isinstance(x.func, ast.Attribute) and x.func.attr == 'close']
         run.check(exits >= 2 and not closes, qn, 'header errors are handed back with the transport still open (%d error exits)' % exits, f6.loc(closes[0]) if closes else f6.loc(), 'the connection is closed before the error is returned: Peer._run still "sends" the NOTIFICATION, but the writer returns silently on a closed socket and nothing reaches the peer')
 
+    # ------------------------------------------------------------------ R7 a refusal that is built is also sent
+    run.rule(
+        'C10.R7',
+        'Incoming.notification is a generator function - nothing is written until it is iterated: every call of it, and of the '
+        'functions that hand its result on (Peer.handle_connection, Reactor.handle_connection), ends in an iteration, a `yield '
+        'from`, reactor.asynchronous.schedule(...) or a return that passes it further; a result that is only tested or dropped '
+        'means the NOTIFICATION is never sent and the refused socket never closed',
+        floor=4,
+    )
+    gens = {q for q, f in model.funcs.items() if q.endswith('.Incoming.notification') or q.endswith('.Connection.notification')}
+    changed = True
+    while changed:
+        changed = False
+        for q, f in model.funcs.items():
+            if q in gens:
+                continue
+            for r in walk_no_nested(f.node):
+                if isinstance(r, ast.Return) and isinstance(r.value, ast.Call) and any(c in gens for c in model.callees(f.module, r.value)):
+                    gens.add(q)
+                    changed = True
+                    break
+    run.extra['refusal_generators'] = sorted(short(g) for g in gens)
+    n7 = 0
+    for f in sorted(model.funcs.values(), key=lambda x: x.qualname):
+        pm7 = None
+        for c in walk_no_nested(f.node):
+            if not (isinstance(c, ast.Call) and any(g in gens for g in model.callees(f.module, c))):
+                continue
+            n7 += 1
+            pm7 = pm7 or parent_map(f.node)
+            par = pm7.get(id(c))
+            how = None
+            if isinstance(par, ast.Return):
+                how = 'returned'
+            elif isinstance(par, (ast.For, ast.AsyncFor)) and par.iter is c:
+                how = 'iterated'
+            elif isinstance(par, ast.YieldFrom):
+                how = 'yield from'
+            elif isinstance(par, ast.Call) and isinstance(par.func, ast.Attribute) and par.func.attr == 'schedule' and c in par.args:
+                how = 'scheduled'
+            elif isinstance(par, ast.Assign) and isinstance(par.targets[0], ast.Name):
+                nm = par.targets[0].id
+                uses = [x for x in walk_no_nested(f.node) if isinstance(x, ast.Name) and x.id == nm and isinstance(x.ctx, ast.Load)]
+                for u in uses:
+                    pu = pm7.get(id(u))
+                    if (isinstance(pu, (ast.For, ast.AsyncFor)) and pu.iter is u) or isinstance(pu, ast.YieldFrom) or isinstance(pu, ast.Return) or (isinstance(pu, ast.Call) and ((isinstance(pu.func, ast.Attribute) and pu.func.attr == 'schedule') or dotted(pu.func) in ('next', 'list'))):
+                        how = 'consumed through `%s`' % nm
+            run.check(how is not None, f.qualname, 'refusal built by %s is %s' % (norm(c.func)[:50], how or 'never run'), f.loc(c), 'the generator that writes the NOTIFICATION and closes the socket is created but never iterated or scheduled: the peer gets no Cease and the connection stays open')
+    if n7 < 4:
+        run.cannot('only %d calls producing a refusal generator found' % n7)
+
     # ------------------------------------------------------------------ R5
     run.rule('C10.R5', 'every registered message type is handled or refused in ESTABLISHED: UPDATE and ROUTE-REFRESH have handlers, KEEPALIVE feeds the timer, NOTIFICATION is raised by read_message, anything else (OPEN) must be refused with 5/3', floor=3)
     _r5_types(model, run, folder)
